@@ -42,6 +42,8 @@ def parse_log(path):
             res.setdefault('status_' + f[1].decode('latin1'), []).append((f[2], esc_untag(f[3])))
         elif tag in ('file', 'link_symlink', 'link_hardlink', 'dir_fixed', 'symlink_fixed') and len(f) >= 3:
             res.setdefault(tag, []).append((f[1], esc_untag(f[2])))
+            if tag == 'link_hardlink' and len(f) >= 4:
+                res.setdefault('hardlink_to', {})[(f[1], esc_untag(f[2]))] = esc_untag(f[3])
     return res
 
 
@@ -63,6 +65,35 @@ class Scenario:
             t1.append((b'content.lock', 'f'))
         if b'content' in names1 or any(s.startswith(b'content/') for s in names1):
             self.trees[self.disks[0]] = [(s, k) for s, k in t1 if s != b'content' and not s.startswith(b'content/')]
+        # a stale copy of the temporary content file: skipped by the scan (and replaced when the state is saved)
+        t1 = self.trees[self.disks[0]]
+        if rng.random() < 0.5 and b'content.tmp' not in set(s for s, k in t1) and not any(s.startswith(b'content.tmp/') for s, k in t1):
+            t1.append((b'content.tmp', 'f'))
+        # hard links (a second name of a regular file of the same disk) and special files (fifo)
+        self.hard = {}
+        for d in self.disks:
+            t = self.trees[d]
+            names = set(s for s, k in t)
+            parents = [b''] + [s + b'/' for s, k in t if k == 'd']
+            regular = [s for s, k in t if k == 'f' and not s.startswith(b'content')]
+            hd = {}
+            for _ in range(rng.choice([0, 1, 1, 2])):
+                if not regular:
+                    break
+                target = rng.choice(regular)
+                nm = rng.choice(parents) + rng.choice([b'hl', b'0hard', b'zz.c', b'.hl', b'h l', b'tmp']) + rng.choice([b'', b'1', b'.txt'])
+                if nm in names or any(x.startswith(nm + b'/') for x in names):
+                    continue
+                names.add(nm)
+                t.append((nm, 'h'))
+                hd[nm] = target
+            for _ in range(rng.choice([0, 0, 1])):
+                nm = rng.choice(parents) + rng.choice([b'fifo', b'pipe.c', b'.sock', b'tmp'])
+                if nm in names or any(x.startswith(nm + b'/') for x in names):
+                    continue
+                names.add(nm)
+                t.append((nm, 's'))
+            self.hard[d] = hd
         allent = [(d, s, k) for d in self.disks for s, k in self.trees[d]]
         flat = [(s, k) for d, s, k in allent]
         self.nohidden = rng.random() < 0.4
@@ -82,6 +113,25 @@ class Scenario:
                     self.rules.append((incl, txt))
                 continue
             self.rules.append((incl, txt))
+        # a second rule list: the configuration is edited and sync runs again
+        self.rules2 = None
+        if self.bad_rule is None and rng.random() < 0.6:
+            r2 = list(self.rules)
+            for _ in range(rng.choice([1, 1, 2])):
+                k = rng.random()
+                if k < 0.35 and r2:
+                    del r2[rng.randrange(len(r2))]
+                else:
+                    txt = g.gen_rule_text(rng, flat)
+                    if txt != txt.strip(b' \t') or not txt or b'\n' in txt or b'\r' in txt:
+                        continue
+                    try:
+                        g.RefRule(True, txt)
+                    except ValueError:
+                        continue
+                    r2.insert(rng.randint(0, len(r2)), (rng.random() < 0.4, txt))
+            if r2 != self.rules:
+                self.rules2 = r2
         # selection variants
         self.sel = []
         for _ in range(2):
@@ -113,11 +163,18 @@ class Scenario:
         sc.rules = [(i == 'include', t.encode('latin1')) for i, t in j['rules']]
         sc.sel = [([p.encode('latin1') for p in f], [p.encode('latin1') for p in d]) for f, d in j['selections']]
         sc.bad_rule = j.get('bad_rule')
+        sc.hard = {d.encode('latin1'): {a.encode('latin1'): b.encode('latin1') for a, b in h.items()} for d, h in j.get('hard', {}).items()}
+        for d in sc.disks:
+            sc.hard.setdefault(d, {})
+        sc.rules2 = [(i == 'include', t.encode('latin1')) for i, t in j['rules2']] if j.get('rules2') is not None else None
         sc.rngstate = j.get('rngstate', 0)
         return sc
 
     def describe(self):
-        return {'bad_rule': self.bad_rule, 'rngstate': self.rngstate, 'disks': [d.decode('latin1') for d in self.disks],
+        return {'bad_rule': self.bad_rule, 'rngstate': self.rngstate,
+                'hard': {d.decode('latin1'): {a.decode('latin1'): b.decode('latin1') for a, b in h.items()} for d, h in self.hard.items()},
+                'rules2': [[('include' if i else 'exclude'), t.decode('latin1')] for i, t in self.rules2] if self.rules2 is not None else None,
+                'disks': [d.decode('latin1') for d in self.disks],
                 'trees': {d.decode('latin1'): [[s.decode('latin1'), k] for s, k in t] for d, t in self.trees.items()},
                 'nohidden': self.nohidden,
                 'rules': [[('include' if i else 'exclude'), t.decode('latin1')] for i, t in self.rules],
@@ -143,6 +200,12 @@ def materialize(root, sc, only=None):
                 if k == 'l':
                     if not os.path.lexists(p):
                         os.symlink(b'target', p)
+                elif k == 's':
+                    if not os.path.lexists(p):
+                        os.mkfifo(p)
+                elif k == 'h':
+                    if not os.path.lexists(p):
+                        os.link(os.path.join(base, sc.hard[d][sub]), p)
                 else:
                     with open(p, 'wb') as f:
                         if n % 8 != 7:
@@ -151,7 +214,7 @@ def materialize(root, sc, only=None):
                             f.write(bytes((n * 7 + i) & 255 for i in range(2500)))     # three blocks
 
 
-def write_conf(root, sc):
+def write_conf(root, sc, rules=None):
     conf = os.path.join(root, 'conf')
     with open(conf, 'wb') as f:
         f.write(b'blocksize 1\n')
@@ -162,7 +225,7 @@ def write_conf(root, sc):
             f.write(b'data ' + d + b' ' + root.encode() + b'/' + d + b'\n')
         if sc.nohidden:
             f.write(b'nohidden\n')
-        for incl, txt in sc.rules:
+        for incl, txt in (sc.rules if rules is None else rules):
             f.write((b'include ' if incl else b'exclude ') + txt + b'\n')
     for x in ('p', 'q', 'c'):
         os.makedirs(os.path.join(root, x), exist_ok=True)
@@ -181,37 +244,72 @@ def nest(tree):
     return rootd
 
 
-def expected_scan(sc, root, decide):
-    """walk as scan_sub does (scan.c:1302-1529).  decide(disk, sub, name, isdir) -> True when the entry is skipped.
-    returns (files, links, emptydirs) as sets of (disk, sub)"""
-    files, links, dirs = set(), set(), set()
+KINDWORD = {'f': b'file', 'h': b'file', 'l': b'link', 'd': b'directory', 'e': b'directory', 's': b'special file'}
 
-    def scan(disk, entries, prefix):
+
+class ScanResult:
+    def __init__(self):
+        self.files, self.symlinks, self.dirs = set(), set(), set()
+        self.hardlinks = {}          # (disk, sub) -> sub of the name that is the file
+        self.msgs = set()            # verbose messages: (b'hidden', path) (b'content', path) (kind word, path, rule text)
+
+    @property
+    def links(self):
+        return self.symlinks | set(self.hardlinks)
+
+    def key(self):
+        return (self.files, self.symlinks, self.hardlinks, self.dirs)
+
+
+def expected_scan(sc, root, decide, rules=None):
+    """walk as scan_sub does (scan.c:1302-1529) with --test-force-order-alpha: entries of a directory in byte order,
+    directories entered when met.  decide(disk, sub, name, isdir) -> falsy when the entry is kept, else
+    ('hidden',) ('content',) ('rule', index).  Special files are never stored and do not make a directory non-empty;
+    the first accepted name of an inode is the file, later ones are hard links."""
+    rules = sc.rules if rules is None else rules
+    res = ScanResult()
+
+    def scan(disk, entries, prefix, seen):
         processed = False
-        for name, (k, ch) in entries.items():
+        for name in sorted(entries):
+            k, ch = entries[name]
             sub = prefix + name
             isdir = k in ('d', 'e')
-            if decide(disk, sub, name, isdir):
+            why = decide(disk, sub, name, isdir)
+            path = root.encode() + b'/' + disk + b'/' + sub
+            if why:
+                if why[0] == 'rule':
+                    incl, txt = rules[why[1]]
+                    res.msgs.add((KINDWORD[k], path, (b'include ' if incl else b'exclude ') + txt))
+                else:
+                    res.msgs.add((why[0].encode(), path))
                 continue
             if isdir:
-                if not scan(disk, ch, sub + b'/'):
-                    dirs.add((disk, sub))
+                if not scan(disk, ch, sub + b'/', seen):
+                    res.dirs.add((disk, sub))
                 processed = True
             elif k == 'l':
-                links.add((disk, sub))
+                res.symlinks.add((disk, sub))
                 processed = True
+            elif k == 's':
+                pass
             else:
-                files.add((disk, sub))
+                gid = sc.hard[disk].get(sub, sub)
+                if gid in seen:
+                    res.hardlinks[(disk, sub)] = seen[gid]
+                else:
+                    seen[gid] = sub
+                    res.files.add((disk, sub))
                 processed = True
         return processed
     for d in sc.disks:
-        scan(d, nest(sc.trees[d]), b'')
-    return files, links, dirs
+        scan(d, nest(sc.trees[d]), b'', {})
+    return res
 
 
-def ref_decider(sc, root):
+def ref_decider(sc, root, rules=None):
     """the independent reading of the documentation"""
-    rules = [g.RefRule(i, t) for i, t in sc.rules]
+    rules = [g.RefRule(i, t) for i, t in (sc.rules if rules is None else rules)]
     d1 = root.encode() + b'/' + sc.disks[0] + b'/'
     contents = set()
     for c in (root.encode() + b'/c/content', d1 + b'content'):
@@ -219,27 +317,60 @@ def ref_decider(sc, root):
 
     def decide(disk, sub, name, isdir):
         if sc.nohidden and name.startswith(b'.'):
-            return True
+            return ('hidden',)
         if root.encode() + b'/' + disk + b'/' + sub in contents:
-            return True
-        r = g.ref_decide(rules, sub, isdir, default_include=isdir)
-        return r
+            return ('content',)
+        ex, idx = g.ref_decide_reason(rules, sub, isdir, default_include=isdir)
+        return ('rule', idx) if ex else None
     return decide
 
 
-def model_lines_scan(sc, root):
-    """one 'skip' line per tree entry for the extracted model / the C unit driver"""
+def table_decider(tab):
+    """decide() from the answers of the 'why' command of the model / of the C unit driver"""
+    def decide(disk, sub, name, isdir):
+        o = tab[(disk, sub)]
+        if o == '0':
+            return None
+        if o == 'h':
+            return ('hidden',)
+        if o == 'c':
+            return ('content',)
+        return ('rule', int(o[1:]) if o[1:] != '-' else -1)
+    return decide
+
+
+def model_lines_scan(sc, root, rules=None):
+    """one 'why' line per tree entry for the extracted model / the C unit driver"""
     lines, keys = [], []
-    rt = sc.rule_tokens()
+    rt = [('i' if i else 'e') + hx(t) for i, t in (sc.rules if rules is None else rules)]
     ct = ['c' + hx(root.encode() + b'/c/content'), 'c' + hx(root.encode() + b'/' + sc.disks[0] + b'/content')]
     for d in sc.disks:
         dirp = root.encode() + b'/' + d + b'/'
         for sub, k in sc.trees[d]:
             name = sub.split(b'/')[-1]
             isdir = k in ('d', 'e')
-            lines.append('skip %d %d %s %s %s %s %s' % (sc.nohidden, isdir, hx(name), hx(d), hx(dirp), hx(sub), ' '.join(rt + ct)))
+            lines.append('why %d %d %s %s %s %s %s' % (sc.nohidden, isdir, hx(name), hx(d), hx(dirp), hx(sub), ' '.join(rt + ct)))
             keys.append((d, sub))
     return lines, keys
+
+
+import re as _re
+_RX_RULE = _re.compile(rb"^Excluding (file|link|directory|special file) '(.*)' for rule '(.*)'$")
+_RX_PLAIN = _re.compile(rb"^Excluding (hidden|content) '(.*)'$")
+
+
+def parse_verbose(out):
+    """the 'Excluding ...' lines of sync -v"""
+    msgs = set()
+    for line in out.split(b'\n'):
+        m = _RX_RULE.match(line)
+        if m:
+            msgs.add((m.group(1), m.group(2), m.group(3)))
+            continue
+        m = _RX_PLAIN.match(line)
+        if m:
+            msgs.add((m.group(1), m.group(2)))
+    return msgs
 
 
 def ref_selected(sc, fpat, dpat, disk, sub, isdir):
@@ -259,6 +390,7 @@ def ref_selected(sc, fpat, dpat, disk, sub, isdir):
 
 
 def sel_line(fpat, dpat, missing, error, kind, present, hasbad, disk, sub):
+    kind = 'l' if kind == 'h' else kind        # hard links are links for state_filter
     toks = ['i' + hx(t) for t in fpat] + ['D' + hx(t) for t in dpat]
     return 'sel %d %d %s %d %d %s %s %s' % (missing, error, kind, present, hasbad, hx(disk), hx(sub), ' '.join(toks))
 
